@@ -504,7 +504,8 @@ Definition eval_filter (L : lib) (f : lfilter) (v : val) : res val :=
     let num := match n with Some z => z | None => 50%Z end in
     let en := snd (match e with Some a => arg_str a | None => (false, s_dots) end) in
     let s := snd sv in
-    if (Z.of_nat (length s) <? num)%Z then Ok (vstr sv)
+    (* utils/text.py truncate_chars: [if val_length <= num: return val] (fix 12fd629) *)
+    if (Z.of_nat (length s) <=? num)%Z then Ok (vstr sv)
     else
       let k := (num - Z.of_nat (length en))%Z in
       let k' := if fix_truncate_clamp L then Z.max 0 k else k in
@@ -515,7 +516,8 @@ Definition eval_filter (L : lib) (f : lfilter) (v : val) : res val :=
     let en := snd (match e with Some a => arg_str a | None => (false, s_dots) end) in
     let words := wsplit (snd sv) [] in
     if (MAX_TRUNC_WORDS <=? num)%Z then Ok (vstr sv)
-    else if (Z.of_nat (length words) <? num)%Z then Ok (VStr false (join_with [32] words))
+    (* [if len(words) <= num: return ' '.join(words)] (fix 5db6495) *)
+    else if (Z.of_nat (length words) <=? num)%Z then Ok (VStr false (join_with [32] words))
     else Ok (VStr false (join_with [32] (firstn (Z.to_nat num) words) ++ en))
   | FDefault d allow_false =>                                            (* misc.py:36-60 *)
     match v with
